@@ -10,8 +10,9 @@
    parametrised by the record [sizes] of sizeof / macro constants; ZV.Mem.AllocClient - the caller ([client],
    [session]: constructors only into empty handles, objects used only when non-NULL, handles forgotten after free).
    What the model cannot exhibit: undefined behaviour inside an error path, the content of objects, allocation sites
-   that are not transcribed (dictionary trainers, legacy decoders).  Those are covered only by the per-run exhaustive
-   fault injection on the real code (zv/props/c13.py). *)
+   that are not transcribed (dictionary trainers, the legacy one-shot decoders, contrib/seekable_format; the legacy STREAM
+   decoders are transcribed in ZV.Mem.AllocLegacy, round 2, end of this file).  Those are covered only by the per-run
+   exhaustive fault injection on the real code (zv/props/c13.py). *)
 From Coq Require Import NArith List Bool Arith.
 Import ListNotations.
 From ZV.Mem Require Import AllocDsl AllocInstances AllocProofs AllocSet AllocSetProofs AllocGen AllocClient AllocHistory
